@@ -282,6 +282,9 @@ func hostileBytes(seed uint64, side string, items []HRec, b *built, p *ScriptPla
 		switch it.Kind {
 		case "rec":
 			pl := core.Bytes(r, it.Len)
+			if it.A > 0 && len(pl) > 0 {
+				pl[0] = byte(it.A - 1) // a chosen message type instead of a random one
+			}
 			rec := echbox.Record(it.Type, 0x0303, pl)
 			if it.Lie != 0 {
 				binary.BigEndian.PutUint16(rec[3:], uint16(it.Len+it.Lie))
@@ -463,6 +466,10 @@ func genHRecs(r *rand.Rand, side string) []HRec {
 			}
 		default:
 			it := HRec{Kind: "rec", Type: []byte{20, 21, 22, 22, 23, 0, 24, 255}[r.IntN(8)], Len: []int{0, 0, 1, 2, 3, 4, 5, 40, 300, 16384, 16640, 18432}[r.IntN(12)]}
+			if it.Type == 22 && r.IntN(2) == 0 {
+				// the edges of the message-type byte, and the types the Conn looks at
+				it.A = 1 + []int{0, 1, 2, 3, 4, 5, 6, 8, 11, 13, 15, 20, 24, 25, 127, 128, 253, 254, 255}[r.IntN(19)]
+			}
 			if r.IntN(4) == 0 {
 				it.Lie = []int{1, 5, 100, 18433, 40000, 65000}[r.IntN(6)]
 				if it.Len+it.Lie > 65535 {
